@@ -1,5 +1,6 @@
 """C15 S3 cassette writes are confined: read-only, own prefix, complete-before-visible."""
 import datetime
+import zlib
 import multiprocessing as mp
 import random
 import threading
@@ -84,8 +85,14 @@ class Replayer(object):
                 if k == 'savebegin':
                     cat = ''.join(e['id'][:list(e['id']).index('/')])
                     r = cas.create_new_recording(cat)
-                    r.set_data('key', {'value': [1, 2, 3]})
-                    r.add_metadata({'m': 1})
+                    # the relative size of the two objects of a save varies: ordinary (data larger than metadata), or tiny
+                    # data with large, highly compressible metadata (the stored full object is then the smaller one)
+                    if (zlib.crc32(repr([x['ev']['kind'] for x in beh]).encode()) + idx) % 2:
+                        r.set_data('key', {'value': [1, 2, 3]})
+                        r.add_metadata({'m': 1})
+                    else:
+                        r.set_data('k', 1)
+                        r.add_metadata({'m': 1, 'tags': ['compressible-metadata-value'] * 400})
                     self.ids[e['id'][-1]] = r.id
                     self.recs[c] = r
                 elif k == 'resavebegin':
